@@ -90,7 +90,19 @@ func c15cid(data []byte) cid.Cid {
 	return cid.NewCidV1(cid.DagCBOR, mh)
 }
 
+// One run = 1..3 traversals in a row: the accumulator keeps process-level state (pooled flush
+// buffers), so what one traversal leaves behind is part of the next one's environment.
 func scenarioC15(x *runner.X) {
+	n := x.Tape.Pick(1, 2, 3, 1)
+	for i := 0; i < n && !x.Failed(); i++ {
+		c15traversal(x)
+	}
+	if n > 1 {
+		x.Probe("c15.several_traversals")
+	}
+}
+
+func c15traversal(x *runner.X) {
 	t := x.Tape
 	r := t.SubRand()
 	knobCap := t.Pick(5000, 1, 3, 5000)
